@@ -403,6 +403,10 @@ func (p *Program) endsInNoReturn(fn *ssa.Function) bool {
 	if fn.Pkg == nil || fn.Pkg.Pkg.Path() != ModulePath+"/logging" {
 		return false
 	}
+	// every block that returns must either have called os.Exit (or another no-return function) just before, or be the
+	// "silenced" exit of the level guard `level > <largest level>`: that guard never holds, because a level is only ever
+	// stored after a range check (rule OPTION-RANGE decides exactly that premise and fails if it is lost).
+	exits, others := 0, 0
 	for _, b := range fn.Blocks {
 		if len(b.Instrs) == 0 {
 			continue
@@ -410,7 +414,7 @@ func (p *Program) endsInNoReturn(fn *ssa.Function) bool {
 		if _, ok := b.Instrs[len(b.Instrs)-1].(*ssa.Return); !ok {
 			continue
 		}
-		// last call in this block
+		exited := false
 		for i := len(b.Instrs) - 2; i >= 0; i-- {
 			c, ok := b.Instrs[i].(*ssa.Call)
 			if !ok {
@@ -418,16 +422,39 @@ func (p *Program) endsInNoReturn(fn *ssa.Function) bool {
 			}
 			if callee := c.Common().StaticCallee(); callee != nil {
 				if callee.Pkg != nil && callee.Pkg.Pkg.Path() == "os" && callee.Name() == "Exit" {
-					return true
+					exited = true
 				}
 				if p.noReturn[callee] {
-					return true
+					exited = true
 				}
 			}
 			break
 		}
+		if exited {
+			exits++
+			continue
+		}
+		// the silenced exit: sole predecessor ends in `if <level field> > const` and this block is its true successor
+		silenced := false
+		if len(b.Preds) == 1 && len(b.Instrs) == 1 {
+			pb := b.Preds[0]
+			if iff, ok := pb.Instrs[len(pb.Instrs)-1].(*ssa.If); ok && pb.Succs[0] == b {
+				if bo, ok := iff.Cond.(*ssa.BinOp); ok && bo.Op == token.GTR {
+					if _, isConst := bo.Y.(*ssa.Const); isConst {
+						if u, ok := bo.X.(*ssa.UnOp); ok && u.Op == token.MUL {
+							if fa, ok := u.X.(*ssa.FieldAddr); ok && fieldOf(fa.X.Type(), fa.Field).Name() == "level" {
+								silenced = true
+							}
+						}
+					}
+				}
+			}
+		}
+		if !silenced {
+			others++
+		}
 	}
-	return false
+	return exits > 0 && others == 0
 }
 
 // IsNoReturnCall reports whether the call never returns (Fatal*, os.Exit, panic).
